@@ -220,6 +220,11 @@ def _job(args):
             out["status"] = "unsupported"
             out["error"] = r["error"]
             break
+        if r["status"] == "unsupported":
+            # a limit of the harness met on a concrete run (e.g. a stand-in lacks what the code now asks of it): undecided
+            out["status"] = "unsupported"
+            out["error"] = r["error"]
+            break
         if r["status"] in ("crash", "unsupported"):
             out["sample_failures"].append({"inputs": r["drawn"], "failed": [["harness " + r["status"], r["error"]]],
                                            "crash": True})
